@@ -119,6 +119,21 @@ def curved_chain(rng, numeric="frac", degree=2, nmin=3, nmax=6, center=None):
     return None
 
 
+def spandrel(rng, center=None):
+    """A corner closed by a quadratic arc whose middle control point coincides with the
+    corner vertex: two distinct control points with equal coordinates (legal, and the
+    classic way a fillet is drawn).  Float chain, counter-clockwise."""
+    cx, cy = center if center is not None else (rng.uniform(-3, 3), rng.uniform(-3, 3))
+    ang = rng.uniform(0, math.tau)
+    la, lc = rng.uniform(1.5, 4), rng.uniform(1.5, 4)
+    spread = rng.uniform(1.0, 2.2)
+    b = (cx, cy)
+    a = (cx + la * math.cos(ang + spread), cy + la * math.sin(ang + spread))
+    c = (cx + lc * math.cos(ang), cy + lc * math.sin(ang))
+    # triangle c, a, b is counter-clockwise for 0 < spread < pi
+    return ((c, (b[0], b[1]), a), (a, b), (b, c))
+
+
 def _simple_float(poly):
     n = len(poly)
     for i in range(n):
